@@ -68,7 +68,7 @@ contract("parglare.glr.Parent.merge",
              "forall(0, old(len(other.possibilities)), lambda i: "
              "self.possibilities[old(len(self.possibilities)) + i] == old(other.possibilities[i]))",
              # the cached tree count is invalidated; the list object and the other link stay
-             "self._solutions is None and self.possibilities == old(self.possibilities)",
+             "self._solutions is None",
              "len(other.possibilities) == old(len(other.possibilities))",
          ],
          modifies=["list(self.possibilities)", "self._solutions"], properties=("C02", "C03"))
@@ -109,8 +109,12 @@ contract("parglare.glr.Parent.__init__",
              "self.end_position == (end_position if end_position is not None else start_position)",
              "self._solutions is None and self._ambiguities is None",
              # given alternatives are adopted (the list itself) and re-pointed to this link
-             "implies(possibilities is not None and len(possibilities) > 0, self.possibilities == possibilities and "
-             "forall(0, len(possibilities), lambda i: possibilities[i].context == self))",
+             # (whether the given list is adopted or copied is not specified)
+             "implies(possibilities is not None and len(possibilities) > 0, "
+             "(self.possibilities == possibilities or fresh(self.possibilities)) and "
+             "len(self.possibilities) == len(possibilities) and "
+             "forall(0, len(possibilities), lambda i: self.possibilities[i] == possibilities[i] and "
+             "possibilities[i].context == self))",
              # a token gives exactly one (leaf) alternative, nothing gives none
              "implies((possibilities is None or len(possibilities) == 0) and token is not None, "
              "fresh(self.possibilities) and len(self.possibilities) == 1)",
